@@ -478,3 +478,268 @@ theorem condenseAll_tiles (src : List Char) (t0 : List Tok) (q : Nat) (h : Tiles
   exact ⟨_, rfl, matchQuotes_tiles' _ _ _ h8⟩
 
 end Harper
+
+namespace Harper
+
+/-- `condense_contractions` and `condense_ellipsis` look at token kinds only: no token vector makes them panic -/
+theorem condenseContractions_total' (src : List Char) (toks : List Tok) : ∃ out, condenseContractions src toks = .ok out :=
+  condensePattern_total_of _ _ src _ (contraction_patOK src) toks trivial
+
+theorem condenseEllipsis_total' (src : List Char) (toks : List Tok) : ∃ out, condenseEllipsis src toks = .ok out :=
+  condensePattern_total_of _ _ src _ (ellipsis_patOK src) toks trivial
+
+
+theorem matchQuotes_span (toks : List Tok) : (matchQuotes toks).map (·.span) = toks.map (·.span) :=
+  setTwins_span _ _ _
+
+/-! ### the Latin pattern on tokens that may be zero-width (`start ≤ stop`): copies of the lemmas above with `≤` -/
+
+theorem wordSetAtom_eq_le (src : List Char) (ws : List (List Char)) (t : Tok) (r : List Tok)
+    (h1 : t.span.start ≤ t.span.stop) (h2 : t.span.stop ≤ src.length) :
+    wordSetAtom ws src (t :: r) = .ok (if t.kind.isWord && inWordSet ws (txt src t) then 1 else 0) := by
+  simp only [wordSetAtom]
+  cases hw : t.kind.isWord
+  · simp
+  · simp only [Bool.not_true, Bool.false_eq_true, if_false, Bool.true_and]
+    rw [getContent_ok_le _ _ h1 h2]
+    rfl
+
+theorem anyCapAtom_eq_le (src : List Char) (w : List Char) (t : Tok) (r : List Tok)
+    (h1 : t.span.start ≤ t.span.stop) (h2 : t.span.stop ≤ src.length) :
+    anyCapAtom w src (t :: r) = .ok (if isCap src w t then 1 else 0) := by
+  simp only [anyCapAtom, isCap]
+  by_cases hw : t.kind.isWord = true
+  · simp only [hw, Bool.not_true, Bool.false_eq_true, if_false, Bool.true_and]
+    rw [if_neg (by omega)]
+    by_cases hl : t.span.len = w.length
+    · rw [if_neg (by simpa using hl), getContent_ok_le _ _ h1 h2]
+      simp [hl, txt]
+    · rw [if_pos (by simpa using hl)]
+      simp [hl]
+  · simp [hw]
+
+theorem latinA_eq_le (src : List Char) (t : Tok) (r : List Tok) (h1 : t.span.start ≤ t.span.stop)
+    (h2 : t.span.stop ≤ src.length) :
+    latinA src (t :: r) = .ok (if isEtc src t && headPeriod r then 2 else 0) := by
+  unfold latinA seqPat
+  rw [seqGo_step_bool src _ _ 0 t r _ (wordSetAtom_eq_le src _ t r h1 h2), seqGo_period]
+  unfold isEtc
+  cases (t.kind.isWord && inWordSet [['e', 't', 'c'], ['v', 's']] (txt src t)) <;> simp
+
+theorem latinB_eq_le (src : List Char) (t : Tok) (r : List Tok) (hin : InBounds src.length (t :: r)) :
+    latinB src (t :: r) =
+      .ok (if isCap src ['e', 't'] t && (decide (wsCount r ≥ 1) && alPeriod src (r.drop (wsCount r)))
+        then wsCount r + 3 else 0) := by
+  have ht := hin t (by simp)
+  unfold latinB seqPat
+  rw [seqGo_step_bool src _ _ 0 t r _ (anyCapAtom_eq_le src _ t r ht.1 ht.2)]
+  cases he : isCap src ['e', 't'] t
+  · simp
+  · simp only [if_true, Bool.true_and]
+    rw [seqGo_step src whitespaceAtom _ _ r (wsCount r) rfl]
+    by_cases hw : wsCount r = 0
+    · rw [if_pos hw]; simp [hw]
+    · rw [if_neg hw, if_neg (by have : wsCount r ≤ r.length := countWhile_le _ r; omega)]
+      have hge : wsCount r ≥ 1 := by omega
+      simp only [hge, decide_true, Bool.true_and]
+      cases hd : r.drop (wsCount r) with
+      | nil => simp [seqGo, anyCapAtom, alPeriod]
+      | cons a rest =>
+        have ha := hin a (by
+          have : a ∈ r.drop (wsCount r) := by rw [hd]; simp
+          exact List.mem_cons_of_mem _ (List.mem_of_mem_drop this))
+        rw [seqGo_step_bool src _ _ _ a rest _ (anyCapAtom_eq_le src _ a rest ha.1 ha.2), seqGo_period]
+        cases rest with
+        | nil => cases hc : isCap src ['a', 'l'] a <;> simp [alPeriod, headPeriod, hc]
+        | cons p rest' =>
+          cases hc : isCap src ['a', 'l'] a <;> cases hp : p.kind.isPeriod <;>
+            simp [alPeriod, headPeriod, hp, hc]
+          omega
+
+theorem latinPat_eq_le (src : List Char) (toks : List Tok) (hin : InBounds src.length toks) :
+    latinPat src toks = .ok (latinLen src toks) := by
+  have hdef : latinPat = eitherPat [latinA, latinB] := rfl
+  rw [hdef]
+  cases toks with
+  | nil => simp [eitherPat, eitherGo, latinA, latinB, seqPat, seqGo, wordSetAtom, anyCapAtom, latinLen]
+  | cons t r =>
+    have ht := hin t (by simp)
+    simp only [eitherPat, eitherGo, latinA_eq_le src t r ht.1 ht.2, latinB_eq_le src t r hin, latinLen]
+    congr 1
+    cases (isEtc src t && headPeriod r) <;> simp
+
+theorem txt_length_le (src : List Char) (t : Tok) (h1 : t.span.start ≤ t.span.stop)
+    (h2 : t.span.stop ≤ src.length) : (txt src t).length = t.span.stop - t.span.start := by
+  simp [txt]; omega
+
+theorem al_not_start_le (src : List Char) (a : Tok) (h1 : a.span.start ≤ a.span.stop)
+    (h2 : a.span.stop ≤ src.length) (hal : isCap src ['a', 'l'] a = true) :
+    isEtc src a = false ∧ isCap src ['e', 't'] a = false := by
+  have hlen := txt_length_le src a h1 h2
+  simp only [isCap, Bool.and_eq_true, beq_iff_eq, Span.len] at hal
+  obtain ⟨hw, hl, he⟩ := hal
+  simp only [List.length_cons, List.length_nil] at hl
+  match htx : txt src a, hlen with
+  | [c0, c1], _ =>
+    rw [htx] at he
+    simp only [eqIgnoreAsciiCase, Bool.and_eq_true, beq_iff_eq] at he
+    have nv : lowerAscii 'a' ≠ lowerAscii 'v' := by decide
+    have ne : lowerAscii 'a' ≠ lowerAscii 'e' := by decide
+    constructor
+    · simp only [isEtc, inWordSet, htx, List.any_cons, List.any_nil, eqIgnoreAsciiCase]
+      simp [he.1, nv]
+    · simp only [isCap, htx, eqIgnoreAsciiCase]
+      simp [he.1, ne]
+  | [], hlen => simp at hlen; omega
+  | [_], hlen => simp at hlen; omega
+  | _ :: _ :: _ :: _, hlen => simp at hlen; omega
+
+theorem latin_patOK_le (src : List Char) : PatOK latinPat src (InBounds src.length) where
+  tail := fun _ _ h x hx => h x (List.mem_cons_of_mem _ hx)
+  ok := by
+    intro v hv
+    refine ⟨_, latinPat_eq_le src v hv, ?_⟩
+    cases v with
+    | nil => simp [latinLen]
+    | cons t r =>
+      simp only [latinLen, List.length_cons]
+      have hA : (if (isEtc src t && headPeriod r) = true then 2 else 0) ≤ r.length + 1 := by
+        split
+        · rename_i h
+          cases r with
+          | nil => simp [headPeriod] at h
+          | cons c r' => simp
+        · omega
+      have hB : (if (isCap src ['e', 't'] t && (decide (wsCount r ≥ 1) &&
+          alPeriod src (r.drop (wsCount r)))) = true then wsCount r + 3 else 0) ≤ r.length + 1 := by
+        split
+        · rename_i h
+          simp only [Bool.and_eq_true] at h
+          have hal := h.2.2
+          match hd : r.drop (wsCount r), hal with
+          | a :: p :: rest, _ =>
+            have := congrArg List.length hd
+            simp at this
+            omega
+          | [], hal => simp [alPeriod] at hal
+          | [_], hal => simp [alPeriod] at hal
+        · omega
+      generalize (if (isEtc src t && headPeriod r) = true then 2 else 0) = A at hA ⊢
+      generalize (if (isCap src ['e', 't'] t && (decide (wsCount r ≥ 1) &&
+          alPeriod src (r.drop (wsCount r)))) = true then wsCount r + 3 else 0) = B at hB ⊢
+      split <;> omega
+  mono := by
+    intro u v n n' hu hP hn hpos hn' hpos'
+    rw [latinPat_eq_le src _ hP] at hn
+    have hPv : InBounds src.length v := fun x hx => hP x (List.mem_append_right _ hx)
+    rw [latinPat_eq_le src _ hPv] at hn'
+    injection hn with hn
+    injection hn' with hn'
+    subst hn; subst hn'
+    obtain ⟨tv, rv, hv, hwv, hge2, hstart⟩ := latinLen_pos hpos'
+    cases u with
+    | nil => exact absurd rfl hu
+    | cons t u' =>
+      generalize hN' : latinLen src v = N' at hge2 hpos' ⊢
+      simp only [List.cons_append, latinLen, List.length_cons] at hpos ⊢
+      by_cases hb : (isCap src ['e', 't'] t && (decide (wsCount (u' ++ v) ≥ 1) &&
+          alPeriod src ((u' ++ v).drop (wsCount (u' ++ v))))) = true
+      · rw [if_pos hb]
+        simp only [Bool.and_eq_true, decide_eq_true_eq] at hb
+        obtain ⟨_, hw1, hal⟩ := hb
+        by_cases hlen : u'.length ≥ wsCount (u' ++ v) + 1
+        · have hA : (if (isEtc src t && headPeriod (u' ++ v)) = true then 2 else 0) ≤ 2 := by split <;> omega
+          generalize (if (isEtc src t && headPeriod (u' ++ v)) = true then 2 else 0) = A at hA ⊢
+          split <;> omega
+        · exfalso
+          have hdrop : (u' ++ v).drop u'.length = v := by simp
+          by_cases hlt : u'.length < wsCount (u' ++ v)
+          · obtain ⟨x, rest, hx, hws⟩ := countWhile_drop (fun t : Tok => t.kind.isWhitespace) (u' ++ v) _ hlt
+            rw [hdrop, hv] at hx
+            injection hx with hx _
+            subst hx
+            rw [isWord_not_ws hwv] at hws
+            cases hws
+          · have heq : u'.length = wsCount (u' ++ v) := by omega
+            rw [← heq, hdrop, hv] at hal
+            match rv, hal with
+            | p :: rest, hal =>
+              simp only [alPeriod, Bool.and_eq_true] at hal
+              have htv := hPv tv (by rw [hv]; simp)
+              have := al_not_start_le src tv htv.1 htv.2 hal.1
+              rcases hstart with h | h
+              · rw [this.1] at h; cases h
+              · rw [this.2] at h; cases h
+            | [], hal => simp [alPeriod] at hal
+      · rw [if_neg hb] at hpos ⊢
+        have hA : (if (isEtc src t && headPeriod (u' ++ v)) = true then 2 else 0) ≤ 2 := by split <;> omega
+        generalize (if (isEtc src t && headPeriod (u' ++ v)) = true then 2 else 0) = A at hA hpos ⊢
+        split <;> omega
+
+
+/-! ### the passes on ordered input with gaps and zero-width tokens; all passes -/
+
+theorem Gap.inBounds {toks : List Tok} {p q n : Nat} (h : Gap toks p q) (hq : q ≤ n) : InBounds n toks :=
+  fun t ht => by have := h.mem t ht; omega
+
+theorem condenseLatin_total' (src : List Char) (toks : List Tok) (hin : InBounds src.length toks) :
+    ∃ out, condenseLatin src toks = .ok out :=
+  condensePattern_total_of _ _ src _ (latin_patOK_le src) toks hin
+
+theorem condenseContractions_gap' (src : List Char) (toks : List Tok) (p q : Nat) (h : Gap toks p q) :
+    ∃ out, condenseContractions src toks = .ok out ∧ Gap out p q :=
+  condensePattern_gap_of _ _ src _ (contraction_patOK src) toks p q trivial h
+
+theorem condenseEllipsis_gap' (src : List Char) (toks : List Tok) (p q : Nat) (h : Gap toks p q) :
+    ∃ out, condenseEllipsis src toks = .ok out ∧ Gap out p q :=
+  condensePattern_gap_of _ _ src _ (ellipsis_patOK src) toks p q trivial h
+
+theorem condenseLatin_gap' (src : List Char) (toks : List Tok) (p q : Nat) (h : Gap toks p q)
+    (hq : q ≤ src.length) : ∃ out, condenseLatin src toks = .ok out ∧ Gap out p q :=
+  condensePattern_gap_of _ _ src _ (latin_patOK_le src) toks p q (h.inBounds hq) h
+
+theorem condenseAll_gap' (src : List Char) (t0 : List Tok) (p q : Nat) (h : Gap t0 p q) (hq : q ≤ src.length) :
+    ∃ out, condenseAll src t0 = .ok out ∧ Gap out p q := by
+  unfold condenseAll
+  have h3 : Gap (newlinesToBreaks (condenseNewlines (condenseSpaces t0))) p q :=
+    gap_of_spans (newlinesToBreaks_span _) (condenseNewlines_gap' _ _ _ (condenseSpaces_gap' _ _ _ h))
+  obtain ⟨t4, e4, h4⟩ := condenseContractions_gap' src _ _ _ h3
+  have h5 := dottedInitialisms_gap' _ _ _ h4
+  obtain ⟨t6, e6, h6⟩ := numberSuffixes_gap' src _ (h5.inBounds hq)
+  obtain ⟨t7, e7, h7⟩ := condenseEllipsis_gap' src _ _ _ (h6 _ _ h5)
+  obtain ⟨t8, e8, h8⟩ := condenseLatin_gap' src _ _ _ h7 hq
+  simp only [e4, e6, e7, e8]
+  exact ⟨_, rfl, gap_of_spans (matchQuotes_span _) h8⟩
+
+/-- a property of spans that survives "start of one, end of another" and "minimum and maximum of a slice" holds of
+everything `Document::parse` returns, if it returns -/
+theorem condenseAll_all (P : Span → Prop) (hmerge : ∀ s c : Span, P s → P c → P ⟨s.start, c.stop⟩)
+    (hspan : ∀ slice sp, (∀ t ∈ slice, P t.span) → spanOf slice = some sp → P sp)
+    (src : List Char) (t0 out : List Tok) (h : condenseAll src t0 = .ok out) (hin : ∀ t ∈ t0, P t.span) :
+    ∀ t ∈ out, P t.span := by
+  unfold condenseAll at h
+  have h1 := condenseRun_all spacesCfg P (fun s c hs hc _ => hmerge s c hs hc) t0 hin
+  have h2 := condenseRun_all newlinesCfg P (fun s c hs hc _ => hmerge s c hs hc) _ h1
+  have h3 := all_of_spans (newlinesToBreaks_span (dropFlagged (runGo newlinesCfg .scan (dropFlagged (runGo spacesCfg .scan t0))))) P h2
+  simp only [condenseSpaces, condenseNewlines] at h
+  split at h
+  · cases h
+  · rename_i t4 e4
+    have h4 := condensePattern_all _ _ P hspan src _ t4 e4 h3
+    have h5 := dottedInitialisms_all P hmerge t4 h4
+    split at h
+    · cases h
+    · rename_i t6 e6
+      have h6 := numberSuffixes_all P hmerge src _ t6 e6 h5
+      split at h
+      · cases h
+      · rename_i t7 e7
+        have h7 := condensePattern_all _ _ P hspan src _ t7 e7 h6
+        split at h
+        · cases h
+        · rename_i t8 e8
+          have h8 := condensePattern_all _ _ P hspan src _ t8 e8 h7
+          cases h
+          exact all_of_spans (matchQuotes_span _) P h8
+
+end Harper
